@@ -1,7 +1,551 @@
 package main
 
-// Replay of solver models against the real code (filled in later).
+// Replay of solver models against the real code.
+//
+// For a failed obligation with a `sat` answer the inputs of the function are
+// read back from the model (get-value), a Go test calling the real function
+// with these inputs is injected into the package with `go test -overlay`
+// (nothing is written to the repository), the observed results are fed back
+// into the violated clause, and the solver decides whether the clause is
+// false for what the real code did. Only inputs made of integers, booleans,
+// strings and structs of those are replayable; anything else is reported as
+// no-failing-input-found.
+
+import (
+	"encoding/json"
+	"fmt"
+	"go/types"
+	"os"
+	"os/exec"
+	"path/filepath"
+	"regexp"
+	"sort"
+	"strings"
+)
+
+type leaf struct {
+	path string // e.g. "i", "d.value"
+	expr string // SMT expression
+	kind string // int bool strlen strat
+}
+
+type concrete struct {
+	Kind   string               // int bool string struct
+	Int    string               // decimal text
+	Bool   bool
+	Str    string
+	Fields map[string]*concrete
+	Order  []string
+	T      types.Type
+}
 
 func tryReplay(o options, w *World, ob *Obligation, rep map[string]interface{}) bool {
+	vc := ob.vc
+	if vc == nil || vc.fi == nil {
+		return false
+	}
+	defer func() {
+		if r := recover(); r != nil {
+			rep["replay_error"] = fmt.Sprint(r)
+		}
+	}()
+	sig := vc.fi.Obj.Type().(*types.Signature)
+	// 1. inputs from the model
+	type input struct {
+		name string
+		t    types.Type
+		term Term
+	}
+	var ins []input
+	if sig.Recv() != nil {
+		ins = append(ins, input{"self", sig.Recv().Type(), vc.entry["self"].(Term)})
+	}
+	pn := vc.paramNames(vc.fc, sig)
+	for i, n := range pn {
+		tm, ok := vc.entry[n].(Term)
+		if !ok {
+			return false
+		}
+		ins = append(ins, input{n, sig.Params().At(i).Type(), tm})
+	}
+	vals := map[string]*concrete{}
+	for _, in := range ins {
+		c, ok := vc.readBack(ob, in.term, in.t)
+		if !ok {
+			rep["replay_skipped"] = "input " + in.name + " of type " + in.t.String() + " is not replayable"
+			return false
+		}
+		vals[in.name] = c
+	}
+	inputsText := map[string]string{}
+	for k, v := range vals {
+		inputsText[k] = v.goLiteral(vc.fi.Pkg.Types)
+	}
+	rep["failing_input"] = inputsText
+	// 2. run the real code
+	sentinels := vc.sentinelsInContract()
+	src := vc.replaySource(vals, ins[0].name == "self" && sig.Recv() != nil, pn, sentinels)
+	pkgDir := filepath.Dir(w.fset.Position(vc.fi.Decl.Pos()).Filename)
+	outDir := filepath.Join(o.verif, "out", "replay")
+	os.MkdirAll(outDir, 0o755)
+	testFile := filepath.Join(outDir, sanitize(ob.Name)+"_test.go")
+	os.WriteFile(testFile, []byte(src), 0o644)
+	ov := filepath.Join(outDir, sanitize(ob.Name)+"_overlay.json")
+	writeJSON(ov, map[string]interface{}{"Replace": map[string]string{filepath.Join(pkgDir, "zz_govc_replay_test.go"): testFile}})
+	cmd := exec.Command("go", "test", "-tags", "verif", "-overlay", ov, "-vet=off", "-count=1", "-v", "-timeout", "60s", "-run", "^TestGovcReplay$", ".")
+	cmd.Dir = pkgDir
+	cmd.Env = append(os.Environ(), "GOFLAGS=-mod=mod", "GOPROXY=off", "GOSUMDB=off", "GOTOOLCHAIN=local")
+	outb, _ := cmd.CombinedOutput()
+	out := string(outb)
+	rep["replay_test"] = testFile
+	rep["replay_cmd"] = fmt.Sprintf("cd %s && go test -tags verif -overlay %s -vet=off -count=1 -v -timeout 60s -run '^TestGovcReplay$' .", pkgDir, ov)
+	m := regexp.MustCompile(`GOVC-REPLAY: (\{.*\})`).FindStringSubmatch(out)
+	if m == nil {
+		if strings.Contains(out, "panic:") {
+			rep["replay_outcome"] = "real code panicked: " + firstLines(out[strings.Index(out, "panic:"):], 6)
+			return strings.HasPrefix(ob.Kind, "safe:") || ob.Kind == "post"
+		}
+		rep["replay_outcome"] = "replay test did not run: " + firstLines(out, 12)
+		return false
+	}
+	var observed map[string]json.RawMessage
+	if err := json.Unmarshal([]byte(m[1]), &observed); err != nil {
+		rep["replay_outcome"] = "cannot parse replay output"
+		return false
+	}
+	rep["observed"] = json.RawMessage(m[1])
+	if ob.Kind != "post" {
+		rep["replay_outcome"] = "real code ran without panic on the model input; obligation kind " + ob.Kind + " has no observable clause"
+		return false
+	}
+	// 3. evaluate the violated clause on the observed behaviour
+	var clause *Clause
+	for i := range vc.fc.Ensures {
+		en := &vc.fc.Ensures[i]
+		label := en.Name
+		if label == "" {
+			label = fmt.Sprint(i + 1)
+		}
+		if strings.HasSuffix(ob.Name, "#post:"+label) {
+			clause = en
+		}
+	}
+	if clause == nil {
+		return false
+	}
+	env := &SpecEnv{vc: vc, vars: map[string]Value{}, old: map[string]Value{}, pkg: vc.fi.Pkg.PkgPath}
+	var extra []string
+	for _, in := range ins {
+		t := vc.concreteTerm(vals[in.name], in.t)
+		env.vars[in.name], env.old[in.name] = t, t
+		if in.name == "self" {
+			rn := fiRecvName(vc.fi)
+			env.vars[rn], env.old[rn] = t, t
+		}
+	}
+	rnames := vc.resultNames(vc.fc, sig)
+	for i, rn := range rnames {
+		raw, ok := observed[fmt.Sprintf("r%d", i)]
+		if !ok {
+			return false
+		}
+		rt := sig.Results().At(i).Type()
+		t, facts, ok := vc.observedTerm(raw, rt, fmt.Sprintf("obs%d", i), sentinels)
+		if !ok {
+			rep["replay_outcome"] = "result " + rn + " is not replayable"
+			return false
+		}
+		extra = append(extra, facts...)
+		env.vars[rn] = t
+		if len(rnames) == 1 {
+			env.vars["result"] = t
+		}
+	}
+	c := vc.specBool(clause.Expr, env)
+	var sb strings.Builder
+	sb.WriteString("(set-logic ALL)\n" + prelude + vc.ss.decls())
+	for id, v := range vc.w.strOrder {
+		fmt.Fprintf(&sb, "(declare-const lit.%d Str)\n(assert (= (gs.len lit.%d) %d))\n", id, id, len(v))
+		for k := 0; k < len(v) && k < 64; k++ {
+			fmt.Fprintf(&sb, "(assert (= (gs.at lit.%d %d) %d))\n", id, k, v[k])
+		}
+	}
+	sp := vc.specs()
+	for _, d := range vc.gdecls {
+		sb.WriteString(d + "\n")
+	}
+	for _, d := range sp.decls {
+		sb.WriteString(d + "\n")
+	}
+	for _, d := range sp.defs {
+		sb.WriteString(d + "\n")
+	}
+	for _, d := range vc.gassumes {
+		sb.WriteString(d + "\n")
+	}
+	for _, e := range extra {
+		sb.WriteString(e + "\n")
+	}
+	fmt.Fprintf(&sb, "(assert %s)\n(check-sat)\n", c.S)
+	qf := filepath.Join(outDir, sanitize(ob.Name)+"_clause.smt2")
+	os.WriteFile(qf, []byte(sb.String()), 0o644)
+	r := runSolver(solvers[0], qf, 20000)
+	if r.verdict != "unsat" && r.verdict != "sat" {
+		r = runSolver(solvers[2], qf, 20000)
+	}
+	rep["clause_on_observed"] = r.verdict
+	if r.verdict == "unsat" {
+		rep["replay_outcome"] = "REPRODUCED: the real code, run on the model input, returns results for which the clause `" + clause.Src + "` is false"
+		return true
+	}
+	rep["replay_outcome"] = "not reproduced: the clause holds for what the real code returned on the model input (candidate model was spurious or depends on abstracted callees)"
 	return false
+}
+
+// readBack obtains the concrete value of an input term from the model.
+func (vc *VC) readBack(ob *Obligation, t Term, gt types.Type) (*concrete, bool) {
+	switch u := vc.underlying(gt).(type) {
+	case *types.Basic:
+		switch {
+		case u.Info()&types.IsInteger != 0:
+			v, ok := vc.getValue(ob, t.S)
+			if !ok {
+				return nil, false
+			}
+			return &concrete{Kind: "int", Int: v, T: gt}, true
+		case u.Info()&types.IsBoolean != 0:
+			v, ok := vc.getValue(ob, t.S)
+			if !ok {
+				return nil, false
+			}
+			return &concrete{Kind: "bool", Bool: v == "true", T: gt}, true
+		case u.Info()&types.IsString != 0:
+			n, ok := vc.getValue(ob, fmt.Sprintf("(gs.len %s)", t.S))
+			if !ok {
+				return nil, false
+			}
+			var ln int
+			fmt.Sscan(n, &ln)
+			if ln > 4096 {
+				return nil, false
+			}
+			var exprs []string
+			for i := 0; i < ln; i++ {
+				exprs = append(exprs, fmt.Sprintf("(gs.at %s %d)", t.S, i))
+			}
+			bs := make([]byte, ln)
+			if ln > 0 {
+				vs, ok := vc.getValues(ob, exprs)
+				if !ok {
+					return nil, false
+				}
+				for i, v := range vs {
+					var b int
+					fmt.Sscan(v, &b)
+					bs[i] = byte(b)
+				}
+			}
+			return &concrete{Kind: "string", Str: string(bs), T: gt}, true
+		}
+	case *types.Struct:
+		si := vc.ss.info[t.Sort]
+		if si == nil || si.Kind != "struct" {
+			return nil, false
+		}
+		c := &concrete{Kind: "struct", Fields: map[string]*concrete{}, T: gt}
+		for _, f := range si.Fields {
+			ft := Term{fmt.Sprintf("(%s.%s %s)", t.Sort, f.Name, t.S), f.Sort, f.T}
+			fc, ok := vc.readBack(ob, ft, f.T)
+			if !ok {
+				return nil, false
+			}
+			c.Fields[f.Name] = fc
+			c.Order = append(c.Order, f.Name)
+		}
+		return c, true
+	}
+	return nil, false
+}
+
+func (vc *VC) getValue(ob *Obligation, expr string) (string, bool) {
+	vs, ok := vc.getValues(ob, []string{expr})
+	if !ok {
+		return "", false
+	}
+	return vs[0], true
+}
+
+var modelCache = map[string]string{}
+
+func (vc *VC) getValues(ob *Obligation, exprs []string) ([]string, bool) {
+	q := vc.buildQuery(ob, false)
+	q = strings.Replace(q, "(set-logic ALL)", "(set-option :produce-models true)\n(set-logic ALL)", 1)
+	var sb strings.Builder
+	sb.WriteString(q)
+	for _, e := range exprs {
+		fmt.Fprintf(&sb, "(get-value (%s))\n", e)
+	}
+	f := filepath.Join(filepath.Dir(ob.Query), sanitize(ob.Name)+"_getvalue.smt2")
+	os.WriteFile(f, []byte(sb.String()), 0o644)
+	r := runSolver(solvers[0], f, 20000)
+	if r.verdict != "sat" {
+		return nil, false
+	}
+	// each get-value prints ((expr value))
+	var out []string
+	rest := r.output
+	if i := strings.Index(rest, "sat"); i >= 0 {
+		rest = rest[i+3:]
+	}
+	for _, e := range exprs {
+		_ = e
+		i := strings.Index(rest, "((")
+		if i < 0 {
+			return nil, false
+		}
+		// find matching close of the outer paren
+		depth := 0
+		j := i
+		for ; j < len(rest); j++ {
+			if rest[j] == '(' {
+				depth++
+			} else if rest[j] == ')' {
+				depth--
+				if depth == 0 {
+					break
+				}
+			}
+		}
+		entry := rest[i+2 : j-1] // expr value
+		rest = rest[j+1:]
+		// the value is the last balanced token
+		val := lastToken(entry)
+		out = append(out, normalizeNum(val))
+	}
+	return out, true
+}
+
+func lastToken(s string) string {
+	s = strings.TrimSpace(s)
+	if strings.HasSuffix(s, ")") {
+		depth := 0
+		for i := len(s) - 1; i >= 0; i-- {
+			if s[i] == ')' {
+				depth++
+			} else if s[i] == '(' {
+				depth--
+				if depth == 0 {
+					return s[i:]
+				}
+			}
+		}
+	}
+	if i := strings.LastIndexAny(s, " \n\t"); i >= 0 {
+		return s[i+1:]
+	}
+	return s
+}
+
+func normalizeNum(v string) string {
+	v = strings.TrimSpace(v)
+	if strings.HasPrefix(v, "(-") {
+		return "-" + strings.TrimSpace(strings.TrimSuffix(strings.TrimPrefix(v, "(-"), ")"))
+	}
+	return v
+}
+
+func (c *concrete) goLiteral(rel *types.Package) string {
+	tn := types.TypeString(c.T, types.RelativeTo(rel))
+	switch c.Kind {
+	case "int":
+		return fmt.Sprintf("%s(%s)", tn, c.Int)
+	case "bool":
+		return fmt.Sprintf("%s(%v)", tn, c.Bool)
+	case "string":
+		return fmt.Sprintf("%s(%q)", tn, c.Str)
+	case "struct":
+		var parts []string
+		for _, f := range c.Order {
+			parts = append(parts, f+": "+c.Fields[f].goLiteral(rel))
+		}
+		return fmt.Sprintf("%s{%s}", tn, strings.Join(parts, ", "))
+	}
+	return "nil"
+}
+
+func (vc *VC) concreteTerm(c *concrete, gt types.Type) Term {
+	switch c.Kind {
+	case "int":
+		n := c.Int
+		if strings.HasPrefix(n, "-") {
+			n = "(- " + n[1:] + ")"
+		}
+		return Term{n, SInt, gt}
+	case "bool":
+		t := tBool(c.Bool)
+		t.T = gt
+		return t
+	case "string":
+		return vc.w.strLit(c.Str, gt)
+	case "struct":
+		s := vc.ss.sortOf(gt)
+		si := vc.ss.info[s]
+		var parts []string
+		for _, f := range si.Fields {
+			parts = append(parts, vc.concreteTerm(c.Fields[f.Name], f.T).S)
+		}
+		if len(parts) == 0 {
+			return Term{"mk." + string(s), s, gt}
+		}
+		return Term{fmt.Sprintf("(mk.%s %s)", s, strings.Join(parts, " ")), s, gt}
+	}
+	return Term{"0", SInt, gt}
+}
+
+// observedTerm builds an SMT term for a result observed in the replay run.
+func (vc *VC) observedTerm(raw json.RawMessage, rt types.Type, name string, sentinels []*types.Var) (Term, []string, bool) {
+	if vc.ss.sortOf(rt) == SErr {
+		var e struct {
+			Nil bool            `json:"nil"`
+			Is  map[string]bool `json:"is"`
+		}
+		if json.Unmarshal(raw, &e) != nil {
+			return Term{}, nil, false
+		}
+		if e.Nil {
+			return Term{"err.nil", SErr, rt}, nil, true
+		}
+		facts := []string{fmt.Sprintf("(declare-const %s Err)", name), fmt.Sprintf("(assert (not (= %s err.nil)))", name)}
+		for _, s := range sentinels {
+			g := vc.globalVar(s, 0)
+			if e.Is[s.Name()] {
+				facts = append(facts, fmt.Sprintf("(assert (err.is %s %s))", name, g.S))
+			} else {
+				facts = append(facts, fmt.Sprintf("(assert (not (err.is %s %s)))", name, g.S))
+			}
+		}
+		return Term{name, SErr, rt}, facts, true
+	}
+	c, ok := decodeObserved(raw, rt, vc)
+	if !ok {
+		return Term{}, nil, false
+	}
+	return vc.concreteTerm(c, rt), nil, true
+}
+
+func decodeObserved(raw json.RawMessage, rt types.Type, vc *VC) (*concrete, bool) {
+	switch u := vc.underlying(rt).(type) {
+	case *types.Basic:
+		switch {
+		case u.Info()&types.IsInteger != 0:
+			return &concrete{Kind: "int", Int: strings.Trim(string(raw), "\""), T: rt}, true
+		case u.Info()&types.IsBoolean != 0:
+			return &concrete{Kind: "bool", Bool: string(raw) == "true", T: rt}, true
+		case u.Info()&types.IsString != 0:
+			var s string
+			if json.Unmarshal(raw, &s) != nil {
+				return nil, false
+			}
+			return &concrete{Kind: "string", Str: s, T: rt}, true
+		}
+	case *types.Struct:
+		var m map[string]json.RawMessage
+		if json.Unmarshal(raw, &m) != nil {
+			return nil, false
+		}
+		c := &concrete{Kind: "struct", Fields: map[string]*concrete{}, T: rt}
+		for i := 0; i < u.NumFields(); i++ {
+			f := u.Field(i)
+			fr, ok := m[f.Name()]
+			if !ok {
+				return nil, false
+			}
+			fc, ok := decodeObserved(fr, f.Type(), vc)
+			if !ok {
+				return nil, false
+			}
+			c.Fields[f.Name()] = fc
+			c.Order = append(c.Order, f.Name())
+		}
+		return c, true
+	}
+	return nil, false
+}
+
+// sentinelsInContract: package-level error variables of the function's
+// package (candidates for errIs checks in the replay test).
+func (vc *VC) sentinelsInContract() []*types.Var {
+	var out []*types.Var
+	sc := vc.fi.Pkg.Types.Scope()
+	for _, n := range sc.Names() {
+		if v, ok := sc.Lookup(n).(*types.Var); ok && vc.ss.sortOf(v.Type()) == SErr {
+			out = append(out, v)
+		}
+	}
+	sort.Slice(out, func(i, j int) bool { return out[i].Name() < out[j].Name() })
+	return out
+}
+
+func (vc *VC) replaySource(vals map[string]*concrete, hasRecv bool, pn []string, sentinels []*types.Var) string {
+	pkg := vc.fi.Pkg.Types
+	var sb strings.Builder
+	fmt.Fprintf(&sb, "package %s\n\n// generated by govc: replay of a solver model against the real code\n\n", pkg.Name())
+	sb.WriteString("import (\n\t\"encoding/json\"\n\t\"errors\"\n\t\"fmt\"\n\t\"reflect\"\n\t\"testing\"\n)\n\n")
+	sb.WriteString(`func govcDump(v reflect.Value) interface{} {
+	switch v.Kind() {
+	case reflect.Int, reflect.Int8, reflect.Int16, reflect.Int32, reflect.Int64:
+		return fmt.Sprint(v.Int())
+	case reflect.Uint, reflect.Uint8, reflect.Uint16, reflect.Uint32, reflect.Uint64:
+		return fmt.Sprint(v.Uint())
+	case reflect.Bool:
+		return v.Bool()
+	case reflect.String:
+		return v.String()
+	case reflect.Struct:
+		m := map[string]interface{}{}
+		for i := 0; i < v.NumField(); i++ {
+			m[v.Type().Field(i).Name] = govcDump(v.Field(i))
+		}
+		return m
+	}
+	return "unsupported:" + v.Kind().String()
+}
+
+`)
+	sb.WriteString("func govcErr(err error) interface{} {\n\tif err == nil {\n\t\treturn map[string]interface{}{\"nil\": true}\n\t}\n\tis := map[string]bool{}\n")
+	for _, s := range sentinels {
+		fmt.Fprintf(&sb, "\tis[%q] = errors.Is(err, %s)\n", s.Name(), s.Name())
+	}
+	sb.WriteString("\treturn map[string]interface{}{\"nil\": false, \"is\": is, \"msg\": err.Error()}\n}\n\n")
+	sb.WriteString("func TestGovcReplay(t *testing.T) {\n")
+	sig := vc.fi.Obj.Type().(*types.Signature)
+	var args []string
+	for _, n := range pn {
+		args = append(args, vals[n].goLiteral(pkg))
+	}
+	call := vc.fi.Obj.Name() + "(" + strings.Join(args, ", ") + ")"
+	if hasRecv {
+		fmt.Fprintf(&sb, "\trecv := %s\n", vals["self"].goLiteral(pkg))
+		call = "recv." + call
+	}
+	nres := sig.Results().Len()
+	var rn []string
+	for i := 0; i < nres; i++ {
+		rn = append(rn, fmt.Sprintf("r%d", i))
+	}
+	if nres > 0 {
+		fmt.Fprintf(&sb, "\t%s := %s\n", strings.Join(rn, ", "), call)
+	} else {
+		fmt.Fprintf(&sb, "\t%s\n", call)
+	}
+	sb.WriteString("\tout := map[string]interface{}{}\n")
+	for i := 0; i < nres; i++ {
+		if vc.ss.sortOf(sig.Results().At(i).Type()) == SErr {
+			fmt.Fprintf(&sb, "\tout[\"r%d\"] = govcErr(r%d)\n", i, i)
+		} else {
+			fmt.Fprintf(&sb, "\tout[\"r%d\"] = govcDump(reflect.ValueOf(r%d))\n", i, i)
+		}
+	}
+	sb.WriteString("\tb, _ := json.Marshal(out)\n\tfmt.Printf(\"GOVC-REPLAY: %s\\n\", b)\n}\n")
+	return sb.String()
 }
